@@ -81,6 +81,7 @@ int main(int argc, char **argv) {
   long cpu_s = argc > 5 ? atol(argv[5]) : 20;
   std::string flags = argc > 6 ? argv[6] : "";
   bool fb = flags.find('b') != std::string::npos, fl = flags.find('l') != std::string::npos, ft = flags.find('t') != std::string::npos;
+  bool fc = flags.find('c') != std::string::npos;   // compile only
   if (chdir(scratch.c_str()) != 0) return 2;
   signal(SIGVTALRM, on_alarm);
   std::string line, binpath = "x_case.bin";
@@ -117,6 +118,14 @@ int main(int argc, char **argv) {
       setitimer(ITIMER_VIRTUAL, &off, nullptr);
       fprintf(g_out, "{\"id\":\"%s\",\"idx\":%ld,\"status\":\"rejected\",\"diag\":\"%s\",\"located\":%s,\"wrote\":%s}\n",
               jesc(g_id).c_str(), g_index, jesc(diag).c_str(), located ? "true" : "false", access(binpath.c_str(), F_OK) == 0 ? "true" : "false");
+      continue;
+    }
+    if (fc) {
+      struct itimerval off = {{0, 0}, {0, 0}};
+      setitimer(ITIMER_VIRTUAL, &off, nullptr);
+      std::string bin = slurp(binpath);
+      fprintf(g_out, "{\"id\":\"%s\",\"idx\":%ld,\"status\":\"compiled\",\"wrote\":%s,\"size\":%zu,\"stdout\":%zu}\n", jesc(g_id).c_str(), g_index,
+              access(binpath.c_str(), F_OK) == 0 ? "true" : "false", bin.size(), cout_sink.str().size());
       continue;
     }
     // run
